@@ -111,6 +111,16 @@ Example ex_decode_enum :
   /\ decode_enum [(0, 1); (1, 7); (2, -1)] 18446744073709551615 = None.
 Proof. vm_compute. repeat split. Qed.
 
+(* lowering the current maximum with UpdateIndex shrinks the enum: 200 -> 3 leaves max 5 *)
+Example ex_enum_update_lowers_max :
+  let ops := [EAdd 0 1; EAdd 1 5; EAdd 2 200; EUpdate 2 3] in
+  Forall op_in_range ops /\ e_max (enum_run ops) = 5 /\ enum_size (enum_run ops) = 3 /\
+  enum_size (enum_run [EAdd 0 1; EAdd 1 5; EAdd 2 200]) = 8 /\
+  enum_size (enum_run [EAdd 0 1; EAdd 1 5; EAdd 2 200; EClear]) = 1.
+Proof.
+  cbv zeta. split; [repeat constructor; vm_compute; discriminate|]. vm_compute. repeat split.
+Qed.
+
 (* multiplexer: 4096 groups need 12 bits, 4097 need 13, 1 group still 1 bit *)
 Example ex_mux : mux_selector_size 4096 = 12 /\ mux_selector_size 4097 = 13 /\ mux_selector_size 1 = 1 /\ mux_size 4096 52 = 64.
 Proof. vm_compute. repeat split. Qed.
